@@ -39,6 +39,34 @@ CHECKS = {
         "The node's input is the same backend's evaluation of the prefix (self-consistent oracle); reference aggregate functions in mc/refmodel.py are trusted for the windowed values.",
         "DESIGN.md 3/C09",
     ),
+    "C20": (
+        "model_checking",
+        "explicit-state BFS over operation histories of the real DataModelSpace and DBSpace (fresh object rebuilt per history), dict reference model in lock-step, state merging on the model state",
+        "All histories of length <= 3 (thorough 4) over 35 events - insert/execute/remove with user keys, automatic keys, the reserved-looking key 'da_temp_1', a pipeline that overwrites the table it reads, allow_overwrite on/off - are replayed on fresh in-memory and SQLite-backed spaces; after every event the outcome class, keys(), every retrieve() and every describe() must equal the dict model; a rejected operation must leave the store unchanged and an automatic key must be fresh.",
+        "The dict model (mc/props/c20.py model_step) is the specification; exception classes are not compared; automatic key names are adopted from the implementation and only required to be fresh.",
+        "DESIGN.md 3/C20",
+    ),
+    "C22": (
+        "model_checking",
+        "exhaustive enumeration of the full product specification x value x call shape x switch against a three-valued reference checker",
+        "Every combination of 21 specifications (types, type sets, example values, sets of example values, column specs, two-column specs), 26 values (scalars; Pandas and Polars frames that conform, have a wrong type, nulls, only nulls, a missing or extra column, no rows; non-frames), the call shapes (positional, keyword, omitted; second declared argument), return specifications and the global switch is executed on a freshly decorated function and compared with a reference checker written from the statement.",
+        "Reference checker in mc/props/c22.py (Python isinstance semantics; a null scalar against a non-None spec is left unspecified).",
+        "DESIGN.md 3/C22",
+    ),
+    "C23": (
+        "model_checking",
+        "exhaustive enumeration of all edge lists up to a length bound against a union-find reference",
+        "All edge lists of length <= 4 (thorough 6) over 4 vertices, for int, str and mixed int/float vertices, are labelled by the real function and by a union-find reference (label = least vertex of the component); plus all edge lists of length <= 3 (4) over 3 vertices through extend({'c': 'connected_components(f, g)'}) and f.co_equalizer(g) on Pandas.",
+        "Union-find reference in mc/props/c23.py. Vertices are totally ordered within a list.",
+        "DESIGN.md 3/C23",
+    ),
+    "C25": (
+        "model_checking",
+        "all pairs of a complete small frame family (key injectivity) + explicit-state BFS over store/get/mutate histories of the real ResultCache with a dict reference model",
+        "(i) every pair of frames from the complete family (<= 1 row quick / 2 rows thorough, 1-2 columns, int/float/str/bool) must get different keys whenever they differ in a value, a column name, the shape or the row order; (ii) all histories of length <= 3 (4) over 37 events (store/get over 2 dialects x 2 SQL texts x 3 data maps incl. a row permutation and a one-cell change x 2 results; mutate the last returned copy) are replayed on a fresh cache against a dict keyed by (dialect, sql, data map), with a full sweep of every key after each history.",
+        "Value difference is Python inequality (1 == 1.0 == True).",
+        "DESIGN.md 3/C25",
+    ),
     "C24": (
         "model_checking",
         "explicit-state search: complete reachable state graph of the real OrderedSet, lock-step dict/set reference model",
